@@ -108,7 +108,19 @@ class FakeClock:
         self.t += d + (self.oversleep.pop(0) if self.oversleep else 0.0)
 
 
-def run_play(mf, meta_messages, start, holds, oversleep, poke=None, late_start=0.0):
+def consumer_edits(x):
+    """what is yielded belongs to the consumer: it gives the message another tempo / value and another time before asking for the next one"""
+    try:
+        if x.type == 'set_tempo':
+            x.tempo = (x.tempo + 99999) % 16777216
+        elif x.type == 'note_on':
+            x.velocity = (x.velocity + 1) % 128
+        x.time = 0
+    except Exception:  # noqa: BLE001
+        pass
+
+
+def run_play(mf, meta_messages, start, holds, oversleep, poke=None, late_start=0.0, poke_msg=None):
     """real play() against a scripted clock; returns [(message, clock at yield)]"""
     import mido.midifiles.midifiles as mm
     clock = FakeClock(start, oversleep)
@@ -127,6 +139,9 @@ def run_play(mf, meta_messages, start, holds, oversleep, poke=None, late_start=0
             res.append((msg, clock.t))
             if poke is not None:
                 poke()
+            if poke_msg is not None:
+                res[-1] = (msg.copy(), clock.t)
+                poke_msg(msg)
             clock.t += holds.pop(0) if holds else 0.0
         return res, clock
     finally:
@@ -162,6 +177,16 @@ def check_file(rng, tpb, evs):
     ln = mf.length
     if abs(Fraction(ln) - exact[-1]) > Fraction(len(evs) + 2, 2 ** 50) * max(exact[-1], Fraction(1, 10 ** 12)):
         return ('length', 'length %r but the last message is at %r' % (ln, float(exact[-1])))
+    # a consumer that edits every message it is handed (tempo, value, time) before asking for the next one: the times are those of the file
+    got0 = []
+    for x in mf:
+        got0.append((x.type, x.time))
+        consumer_edits(x)
+    again = [(x.type, x.time) for x in mf]
+    if got0 != [(x.type, x.time) for x in msgs] or again != got0:
+        k = next((i for i, (x, y) in enumerate(zip(got0, msgs)) if x != (y.type, y.time)), 0)
+        return ('iter-consumer-edits', 'when the consumer edits each message it is handed, iteration yields %r from message %d on; a read-only consumer gets %r; the next iteration %r (tpb %d)'
+                % (got0[k:k + 3], k, [(x.type, x.time) for x in msgs[k:k + 3]], again[k:k + 3], tpb))
     # iterations of one file are independent of each other and of length: interleave two iterations and reads of length
     it1, it2, got1, got2 = iter(mf), None, [], []
     for k in range(len(msgs)):
@@ -244,6 +269,12 @@ def check_play(rng, tpb, evs):
             if any(abs((x[1] - late) - y[1]) > 1e-6 * max(1.0, abs(y[1])) for x, y in zip(res2, res0)) or len(res2) != len(res0):
                 return ('play-late-start', 'a player made %r s before it was iterated yields message %d at +%r after the start of the iteration, a player iterated at once at +%r'
                         % (late, k, res2[k][1] - late - start if k < len(res2) else None, res0[k][1] - start if k < len(res0) else None))
+        # the consumer edits every message it is handed before asking for the next one: playback must not notice
+        res3, _ = run_play(mf, mmf, start, holds, [], poke_msg=consumer_edits)
+        if [(repr(m), t) for m, t in res3] != [(repr(m), t) for m, t in res0]:
+            k = next((i for i, (x, y) in enumerate(zip(res3, res0)) if (repr(x[0]), x[1]) != (repr(y[0]), y[1])), min(len(res3), len(res0)))
+            return ('play-consumer-edits', 'when the consumer edits each message it is handed, play(meta_messages=%r) yields message %d as %r at +%r instead of %r at +%r'
+                    % (mmf, k, res3[k][0] if k < len(res3) else None, res3[k][1] - start if k < len(res3) else None, res0[k][0] if k < len(res0) else None, res0[k][1] - start if k < len(res0) else None))
         # the consumer reads length (and starts an iteration) between messages: playback must not notice
         res1, _ = run_play(mf, mmf, start, holds, [], poke=lambda: (mf.length, next(iter(mf), None)))
         if [(repr(m), t) for m, t in res1] != [(repr(m), t) for m, t in res0]:
